@@ -34,6 +34,11 @@ func checkC09(r *Report, p *Program) {
 	claimMovePairing(r, p, "R09.6")
 	revisionCopies(r, p, "R09.7")
 	keyCompleteness(r, p, "R09.8", "claimMapKey")
+	// a failed claim / revision write stops the sync before children are reconciled from an incomplete view (R12.1 on the revision code)
+	errorRule(r, p, "R09.9", 8, func(f *ssa.Function) bool {
+		file := p.File(f)
+		return strings.HasSuffix(file, "composite/controller_revision.go") || strings.HasSuffix(file, "composite/rolling_update.go") || strings.HasSuffix(file, "controllerref/controller_revision.go")
+	})
 }
 
 func r09_1(r *Report, p *Program, e *syncEntry) {
@@ -281,6 +286,9 @@ func r09_4(r *Report, p *Program) {
 	// name uses hash(UID(parent), patchData)
 	okN := false
 	for _, cs := range callsTo(name, false, "composite.controllerRevisionHash") {
+		if len(cs.Common().Args) != 2 {
+			continue
+		}
 		a0, a1 := E(cs.Common().Args[0]), E(cs.Common().Args[1])
 		okN = strings.Contains(a0, "GetUID)(p1)") && a1 == "p2"
 	}
